@@ -226,8 +226,21 @@ def fill(claim, na):
         "Not decided: regularisation quality, peak positions on noisy data, optimiser convergence.",
         "DESIGN.md section 4, C13",
     )
-    for pid in ("C06",
-                "C19"):
+    claim(
+        "C19", "other",
+        "call-site wiring analysis over the resolved CLI modules: option-to-parameter forwarding against argparse dests and API signatures, def-use provenance of reported values, must-pass-through emission on the statement CFG, dispatch-table agreement",
+        "Decides the wiring that makes the CLI report what the API computes: every keyword at a CLI->API call site (fit_circuit, "
+        "calculate_drt, perform_zhit, evaluate_log_F_ext, simulate_spectrum) takes the option of the same name, defined for that "
+        "sub-command and accepted by the API; no same-named option is dropped; sibling call sites agree; the data handed over is "
+        "the parse_inputs element after apply_filters (low/high pass, excluded indices mapped to the right DataSet methods); the "
+        "emitted tables are format_text of dataframes of the API result (last refinement); every such text reaches print_func or "
+        "the output file on every path; format_text dispatches csv/md/tex/json to the pandas writer of that format on the "
+        "unmodified frame; mock specifier keys and types are those generate_mock_data reads; the sub-command table.",
+        "Not decided: number formatting inside pandas writers (md uses the requested significant digits), plot contents, "
+        "argparse type conversion, config-file defaults.",
+        "DESIGN.md section 4, C19",
+    )
+    for pid in ("C06",):
         na(pid, NOT_YET)
     na("C10", "statistical behaviour of a heuristic pipeline (noise tracking, drift margin) on noisy inputs: quantifies over "
               "numerical outcomes of optimisers and random noise; no sound static argument bounds it")
